@@ -133,13 +133,13 @@ def jacobian_agreement(chk):
     risk_store = [e for e in U.events if e.kind == "store" and sym.contains(e.base, lambda n: n[0] == "fld" and len(n) == 4 and n[2] == "risk") and canon(e.value) != canon(("nan",))]
     chk.need(risk_store, "UpdateRisk no longer stores the risk")
     v = risk_store[-1].value
-    target = ("param", "target")
+    target = ("param", U.fn.params[1] if len(U.fn.params) > 1 else "target")  # the node whose risk is computed, whatever it is called
     pos = None
     factors = set()
-    for g, leaf in sym.cases(v):
-        for n in sym.walk(leaf):
-            if n[0] == "fld" and n[1] == target and n[2] in ("_position", "multiplier"):
-                factors.add(n[2])
+    for n in sym.walk(v):
+        if n[0] == "fld" and n[1] == target and n[2] in ("_position", "multiplier"):
+            factors.add(n[2])
+    chk.need("_position" in factors, "UpdateRisk's security risk no longer depends on the position")
     uses_multiplier = "multiplier" in factors
     H = chk.summary(ALGOS, "HedgeRisks", "__call__", host="HedgeRisks", no_inline=("_get_target_risk",))
     jac = None
